@@ -53,6 +53,16 @@ class SliceV:
         return f"slice({self.lo!r}, {self.hi!r})"
 
 
+class SeqV:
+    """the list a comprehension builds over a sequence of unknown length: one generic element, the number of elements, the sequence iterated"""
+
+    def __init__(self, elem, count, iterable):
+        self.elem, self.count, self.iterable = elem, count, iterable
+
+    def __repr__(self):
+        return f"[{self.elem!r} x {self.count!r}]"
+
+
 class FuncV:
     def __init__(self, fn, closure=None, qual=None):
         self.fn, self.closure, self.qual = fn, closure, qual or getattr(fn, "_vqual", fn.name)
@@ -122,6 +132,18 @@ def is_generator(fn):
     return False
 
 
+def const_expr_ok(node):
+    """an expression made of literals, names, arithmetic and slice / int / len / float calls: a constant wherever it is bound (module or class level)"""
+    for x in ast.walk(node):
+        if isinstance(x, ast.Call):
+            if not (isinstance(x.func, ast.Name) and x.func.id in ("slice", "int", "len", "float")):
+                return False
+        elif not isinstance(x, (ast.Constant, ast.Tuple, ast.List, ast.Dict, ast.Name, ast.UnaryOp, ast.unaryop, ast.expr_context, ast.BinOp,
+                                ast.operator, ast.Attribute)):
+            return False
+    return True
+
+
 def module_consts(mod):
     """module-level names bound once to a literal / slice(..) / arithmetic of literals"""
     count, val = {}, {}
@@ -136,17 +158,33 @@ def module_consts(mod):
                 if isinstance(x, ast.Name):
                     count[x.id] = count.get(x.id, 0) + 1
         if isinstance(st, (ast.Assign, ast.AnnAssign)) and len(tg) == 1 and isinstance(tg[0], ast.Name) and getattr(st, "value", None) is not None:
-            ok = True
-            for x in ast.walk(st.value):
-                if isinstance(x, ast.Call):
-                    if not (isinstance(x.func, ast.Name) and x.func.id in ("slice", "int", "len", "float")):
-                        ok = False
-                elif not isinstance(x, (ast.Constant, ast.Tuple, ast.List, ast.Dict, ast.Name, ast.UnaryOp, ast.unaryop, ast.expr_context, ast.BinOp,
-                                        ast.operator, ast.Attribute)):
-                    ok = False
-            if ok:
+            if const_expr_ok(st.value):
                 val[tg[0].id] = st.value
     return {k: v for k, v in val.items() if count.get(k) == 1}
+
+
+def class_chain(mod, cls):
+    """the class and the classes of the same module it inherits from, in method-resolution order (depth first, left to right)"""
+    out, work = [], [cls]
+    while work:
+        c = work.pop(0)
+        cdef = mod.classes.get(c)
+        if cdef is None or c in out:
+            continue
+        out.append(c)
+        work[0:0] = [dotted(b) for b in cdef.bases if dotted(b) in mod.classes]
+    return out
+
+
+def func_of(ctx, qual, rel=M.OP4):
+    """the function `qual` of the module; a method `OP4.name` is also looked for in OP4's base classes defined in the same module"""
+    mod = ctx.src.mod(rel)
+    if qual not in mod.funcs and "." in qual:
+        cls, name = qual.split(".", 1)
+        for c in class_chain(mod, cls)[1:]:
+            if f"{c}.{name}" in mod.funcs:
+                return ctx.src.func(rel, f"{c}.{name}")
+    return ctx.src.func(rel, qual)
 
 
 class World:
@@ -157,15 +195,19 @@ class World:
         self.mod = ctx.src.mod(rel)
         self.cls = cls
         self.table = {}
+        chain = self.chain = class_chain(self.mod, cls)
         for q, f in self.mod.funcs.items():
             if "#" in q:
                 continue
             if "." not in q:
                 self.table[q] = f
-            elif q.startswith(cls + ".") and q.count(".") == 1:
-                nm = q.split(".", 1)[1]
-                self.table["self." + nm] = f
-                self.table[cls + "." + nm] = f
+        for c in reversed(chain):            # the class itself last: it overrides what it inherits
+            for q, f in self.mod.funcs.items():
+                if "#" not in q and q.startswith(c + ".") and q.count(".") == 1:
+                    nm = q.split(".", 1)[1]
+                    self.table["self." + nm] = f
+                    self.table[cls + "." + nm] = f
+                    self.table[c + "." + nm] = f
         self.consts = module_consts(self.mod)
         self.module_names = set()
         for st_ in self.mod.tree.body:
@@ -178,15 +220,15 @@ class World:
                     for al in x.names:
                         self.module_names.add((al.asname or al.name).split(".")[0])
         self.class_consts = {}
-        cdef = self.mod.classes.get(cls)
-        if cdef is not None:
-            cnt = {}
+        for c in reversed(chain):
+            cdef = self.mod.classes.get(c)
+            cnt, got = {}, {}
             for st_ in cdef.body:
                 if isinstance(st_, ast.Assign) and len(st_.targets) == 1 and isinstance(st_.targets[0], ast.Name):
                     cnt[st_.targets[0].id] = cnt.get(st_.targets[0].id, 0) + 1
-                    if all(isinstance(x, (ast.Constant, ast.BinOp, ast.UnaryOp, ast.operator, ast.unaryop, ast.Tuple, ast.expr_context)) for x in ast.walk(st_.value)):
-                        self.class_consts[st_.targets[0].id] = st_.value
-            self.class_consts = {k: v for k, v in self.class_consts.items() if cnt.get(k) == 1}
+                    if const_expr_ok(st_.value):
+                        got[st_.targets[0].id] = st_.value
+            self.class_consts.update({k: v for k, v in got.items() if cnt.get(k) == 1})
         self.opaque = set()          # table keys (or bare method names) that are not followed
         self.pinned = {}             # dotted name -> value: assignments to it are ignored
         self.state = {}              # initial self.* attribute values
@@ -254,6 +296,8 @@ def wrap(v):
         return F.fn("dtype", v.fmt.atom())
     if isinstance(v, Star):
         return F.fn("star", wrap(v.v))
+    if isinstance(v, SeqV):
+        return F.fn("seqv", wrap(v.elem), wrap(v.count))
     if isinstance(v, PackV):
         return F.fn("packed", *[wrap(it.value) if it.value is not None else F.sym("pad") for it in v.items])
     if isinstance(v, BytesV):
@@ -288,6 +332,22 @@ def same_value(a, b):
 
 
 TRUE, FALSE, NONE = F.sym("True"), F.sym("False"), F.sym("None")
+CMP_NEG = {"Eq": "NotEq", "NotEq": "Eq", "Lt": "GtE", "GtE": "Lt", "Gt": "LtE", "LtE": "Gt", "Is": "IsNot", "IsNot": "Is", "In": "NotIn", "NotIn": "In"}
+
+
+def negate(v):
+    """the value of `not v` for a test value: comparisons are complemented, `not x` unwrapped"""
+    if not is_rat(v):
+        return v
+    if sym_name(v) in ("True", "False"):
+        return FALSE if sym_name(v) == "True" else TRUE
+    u = unfn(v)
+    if u is not None:
+        if u[0].startswith("cmp:") and u[0][4:] in CMP_NEG and len(u[1]) == 2:
+            return F.fn("cmp:" + CMP_NEG[u[0][4:]], u[1][0], u[1][1])
+        if u[0] == "not" and len(u[1]) == 1:
+            return u[1][0]
+    return F.fn("not", v)
 
 
 def boolv(b):
@@ -457,6 +517,8 @@ class OP4Eval(AutoEvaluator):
             return None if n is None else n > 0
         if isinstance(v, (FuncV, StructV, BoundV, SliceV, DtypeV, PackV)):
             return True
+        if isinstance(v, SeqV):
+            return self.truth(v.count) if is_rat(v.count) else None
         if isinstance(v, PosV):
             return None
         if not is_rat(v):
@@ -503,7 +565,7 @@ class OP4Eval(AutoEvaluator):
         return self.truth(v)
 
     # ------------------------------------------------------------------------------------------------ integer operators
-    def _split_pow2(self, a, k):
+    def _split_pow2(self, a, k, exact=False):
         """a = q * 2**k + rem with rem the terms whose coefficients are not multiples of 2**k; returned only when 0 <= rem < 2**k is known"""
         if not a.d.is_const():
             return None
@@ -524,7 +586,30 @@ class OP4Eval(AutoEvaluator):
         lo, hi = self.rng(rem)
         if lo is not None and hi is not None and lo >= 0 and hi < two:
             return q, rem
+        if exact and lo is not None and hi is not None and self._tight(rem):
+            # the low part provably leaves [0, 2**k) for an admissible input (its interval is attained): the operation does not separate the
+            # two parts.  The exact value is kept (x & (2**k - 1) = rem mod 2**k, x >> k = q + rem // 2**k) and the round trip then fails on it
+            return q, rem, (lo, hi)
         return None
+
+    def _tight(self, v):
+        """is the interval `rng` computes for v attained?  True for a value with one bounded atom whose bounds are constants or themselves tight"""
+        for _ in range(4):
+            atoms = v.n.atoms()
+            if len(atoms) != 1 or not v.d.is_const():
+                return False
+            (a,) = atoms
+            b = self.W.bounds.get(a)
+            if b is None or b[0] is None or b[1] is None:
+                return False
+            sym = [x for x in b if is_rat(x) and not x.is_const()]
+            if not sym:
+                return True
+            if len(sym) == 2 and not (sym[0] - sym[1]).is_const():
+                return False
+            # both ends move with the same atom (0 <= r0 <= ROWS - 1): go on with that atom's own interval
+            v = sym[0]
+        return False
 
     def _intop(self, op, a, b, node=None):
         """//, %, <<, >>, & on polynomial values (bit-operator model of op4_model; a low part is dropped / kept only when its interval is
@@ -540,9 +625,13 @@ class OP4Eval(AutoEvaluator):
             elif isinstance(op, (ast.FloorDiv, ast.Mod)) and c > 1 and (c & (c - 1)) == 0:
                 k, want = c.bit_length() - 1, "q" if isinstance(op, ast.FloorDiv) else "r"
             if k is not None:
-                sp = self._split_pow2(a, k)
-                if sp is not None:
+                sp = self._split_pow2(a, k, exact=True)
+                if sp is not None and len(sp) == 2:
                     return sp[0] if want == "q" else sp[1]
+                if sp is not None:
+                    q, rem, _iv = sp
+                    two = F.const(2 ** k)
+                    return q + F.fn("floordiv", rem, two) if want == "q" else F.fn("mod", rem, two)
         if isinstance(op, (ast.FloorDiv, ast.Mod)) and b.is_const() and not b.is_zero():
             c = b.const_value()
             if c.denominator == 1 and c > 0 and (int(c) & (int(c) - 1)) == 0 and int(c) > 1:
@@ -604,6 +693,11 @@ class OP4Eval(AutoEvaluator):
                 return PackV(a.order, a.items + b.items, None)
         if isinstance(op, ast.Sub) and isinstance(a, PosV) and const_int(b) is not None:
             return a.shifted(-const_int(b))
+        if isinstance(op, ast.Mult):
+            for x, y in ((a, b), (b, a)):
+                sx = strconst(x) if is_rat(x) else (x.concrete() if isinstance(x, Txt) else None)
+                if sx is not None and const_int(y) is not None:
+                    return F.sym(repr(sx * const_int(y)))
         if isinstance(op, ast.Mod):
             ta = as_txt(a)
             if ta is not None:
@@ -659,6 +753,8 @@ class OP4Eval(AutoEvaluator):
                 return F.sym("Ellipsis")
             if isinstance(v, complex):
                 return F.I * F.const(Fraction(repr(v.imag)))
+            if isinstance(v, bytes) and not v:
+                return PackV(None, [], None)
             return Unknown(f"constant {v!r}")
         if t is ast.Name:
             if node.id in W.pinned:
@@ -689,7 +785,11 @@ class OP4Eval(AutoEvaluator):
                 if d in self.env:
                     return self.env[d]
                 if d in W.table and not W.is_opaque(d):
-                    return FuncV(W.table[d])
+                    fdef = W.table[d]
+                    if any((dotted(dec) or "").split(".")[-1] in ("property", "cached_property") for dec in fdef.decorator_list) and d.split(".")[0] == "self":
+                        # a read-only property: the attribute is what the getter returns
+                        return self.call_func(FuncV(fdef), [], {}, node)
+                    return FuncV(fdef)
                 root = d.split(".")[0]
                 pre = dotted(node.value)
                 if root in ("self", W.cls) and d.count(".") == 1 and node.attr in W.class_consts and d not in self.env:
@@ -783,7 +883,75 @@ class OP4Eval(AutoEvaluator):
             return DictValue({k.value: self.ev(v) for k, v in zip(node.keys, node.values)})
         if t is ast.Slice:
             return SliceV(*[None if p is None else self._ev(p) for p in (node.lower, node.upper, node.step)])
+        if t in (ast.ListComp, ast.GeneratorExp):
+            return self.comprehension(node)
         return Unknown(f"node {t.__name__}")
+
+    def comprehension(self, node):
+        """[elt for target in iterable]: a tuple when the iterable is one (literal table), else one generic element (SeqV)"""
+        if len(node.generators) != 1 or node.generators[0].is_async:
+            return Unknown("comprehension with several generators")
+        g = node.generators[0]
+        itv = self.ev(g.iter)
+        if is_unknown(itv):
+            return itv
+        names = [x.id for x in ast.walk(g.target) if isinstance(x, ast.Name)]
+        saved = {k: self.env[k] for k in names if k in self.env}
+        try:
+            if isinstance(itv, tuple):
+                out = []
+                for x in itv:
+                    self._assign(g.target, x, node)
+                    keep = True
+                    for c in g.ifs:
+                        r = self.decide(c)
+                        if r is None:
+                            return Unknown("undecided comprehension filter")
+                        if not r:
+                            keep = False
+                            break
+                    if keep:
+                        out.append(self.ev(node.elt))
+                return tuple(out)
+            if is_rat(itv) and not g.ifs:
+                elem, count = self.generic_elem(itv, g.target)
+                self._assign(g.target, elem, node)
+                v = self.ev(node.elt)
+                if is_unknown(v):
+                    return v
+                return SeqV(v, count, itv)
+            return Unknown("comprehension over a non-sequence value")
+        finally:
+            for k in names:
+                if k in saved:
+                    self.env[k] = saved[k]
+                else:
+                    self.env.pop(k, None)
+
+    def generic_elem(self, itv, target):
+        """a generic element of the sequence value `itv` and the number of elements: element k of base[lo:hi] is base[lo + k]; an element of
+        range(..) is bounded by it; anything else is a fresh symbol"""
+        W = self.W
+        W.nframes += 1
+        elems = self.fresh_elems(target, W.nframes)
+        u = unfn(itv)
+        count = self.len_of(itv)
+        if u is not None and u[0] == "call:range" and is_rat(elems):
+            a = u[1]
+            if len(a) == 1:
+                W.bound(elems, 0, a[0] - 1)
+                count = a[0]
+            elif len(a) == 2:
+                W.bound(elems, a[0], a[1] - 1)
+                count = a[1] - a[0]
+        elif u is not None and u[0] == "idx" and len(u[1]) == 2 and is_rat(elems):
+            us = unfn(u[1][1])
+            if us is not None and us[0] == "slice" and len(us[1]) == 3 and sym_name(us[1][2]) == "None":
+                lo = F.const(0) if sym_name(us[1][0]) == "None" else us[1][0]
+                if sym_name(us[1][1]) != "None":
+                    W.bound(elems, 0, us[1][1] - lo - 1)
+                return F.fn("idx", u[1][0], lo + elems), count
+        return elems, count
 
     def fstring(self, node):
         out = []
@@ -1042,6 +1210,10 @@ class OP4Eval(AutoEvaluator):
         pos, kw = self._args(node)
         if callee is not None:
             if is_rat(callee):
+                uc = unfn(callee)
+                if uc is not None and uc[0].startswith("attr:") and len(uc[1]) == 1 and is_rat(uc[1][0]):
+                    # a bound method kept in a name (`emit = f.write`): the call is the method call
+                    return self.method_call(uc[1][0], uc[0][5:], pos, kw, node)
                 return self.opaque_call("<value>", pos, kw, node, callee=callee)
             return Unknown(f"call of {type(callee).__name__}")
         if method is not None:
@@ -1087,7 +1259,7 @@ class OP4Eval(AutoEvaluator):
             if k.startswith("self."):
                 env[k] = v
         q = fv.qual or ""
-        is_method = q.count(".") >= 1 and q.split(".")[0] == self.W.cls and q.count(".") == 1
+        is_method = q.count(".") == 1 and q.split(".")[0] in self.W.chain
         if params and params[0] in ("self", "cls") and is_method:
             env[params[0]] = F.sym(params[0])
             params = params[1:]
@@ -1161,14 +1333,33 @@ class OP4Eval(AutoEvaluator):
                 return Bad(f"decode() of {recv!r}")
             return Unknown("decode of packed bytes")
         if isinstance(recv, tuple):
-            if method in ("append", "extend", "sort"):
+            if method in ("append", "extend") and len(pos) == 1:
+                # a list kept in a name grows (lines / packed records collected before they are written)
+                d = dotted(node.func.value) if isinstance(getattr(node, "func", None), ast.Attribute) else None
+                if d is not None and self.env.get(d) is recv and d not in W.pinned:
+                    if method == "append":
+                        self.env[d] = recv + (pos[0],)
+                    elif isinstance(pos[0], tuple):
+                        self.env[d] = recv + pos[0]
+                    else:
+                        self.env[d] = Unknown("list extended by a sequence of unknown length")
+                return NONE
+            if method == "sort":
                 return NONE
             return Unknown(f"method {method} of a tuple")
+        if isinstance(recv, PackV) and method == "join" and len(pos) == 1 and isinstance(pos[0], tuple) and not recv.items:
+            if all(isinstance(x, PackV) for x in pos[0]):
+                return PackV(None, [it for x in pos[0] for it in x.items], None)
+            return next((x for x in pos[0] if is_unknown(x)), Unknown("join of values that are not packed bytes"))
         if not is_rat(recv):
             return Unknown(f"method {method} of {type(recv).__name__}")
         # ---- a Rat receiver
         if method == "write" and len(pos) == 1:
             W.emits.append(Emit(recv, pos[0], tuple(W.frames), node, self.qual))
+            return NONE
+        if method == "writelines" and len(pos) == 1 and isinstance(pos[0], (tuple, SeqV)):
+            for x in (pos[0] if isinstance(pos[0], tuple) else (pos[0].elem,)):
+                W.emits.append(Emit(recv, x, tuple(W.frames), node, self.qual))
             return NONE
         if method == "readline" and not pos and W.lines is not None:
             return self.next_line(recv)
@@ -1186,6 +1377,9 @@ class OP4Eval(AutoEvaluator):
             return F.fn("call:np." + method, recv)
         if method == "format":
             return Unknown("format of a non-constant template")
+        if method in ("ljust", "rjust", "center") and len(pos) == 1 and is_rat(pos[0]):
+            # only strings / bytes have these methods: the receiver printed in a field of that width
+            return Txt([Fld(recv, "s", pos[0], None, {"ljust": "<", "rjust": ">", "center": "^"}[method], "")])
         self.W.calls.append(("." + method, [recv] + list(pos), kw, node, tuple(W.frames)))
         try:
             args = [recv] + [wrap(a) for a in pos] + [F.fn("kw:" + k, wrap(v)) for k, v in sorted(kw.items())]
@@ -1243,14 +1437,18 @@ class OP4Eval(AutoEvaluator):
                 return Unknown(f"{method} argument")
             r = t.startswith(a) if method == "startswith" else t.endswith(a)
             return boolv(r) if r is not None else Unknown(f"{method}({a!r}) of {t!r}")
-        if method == "find" and len(pos) == 1:
+        if method in ("find", "index") and len(pos) == 1:
             a = sarg(0)
             if a is None:
                 return Unknown("find argument")
             r = t.find(a)
             if r is None:
                 return Unknown(f"find({a!r}) in {t!r}")
-            return F.const(-1) if r == -1 else (F.const(r.minabs) if c is not None else r)
+            if r == -1:
+                return F.const(-1) if method == "find" else Unknown(f"index({a!r}) of a text that does not hold it")
+            return F.const(r.minabs) if c is not None else r
+        if method in ("ljust", "rjust", "center") and len(pos) == 1 and is_rat(pos[0]):
+            return Txt([Fld(t if c is None else Txt([Lit(c)]), "s", pos[0], None, {"ljust": "<", "rjust": ">", "center": "^"}[method], "")])
         if method == "split":
             a = sarg(0)
             if a is None:
@@ -1276,6 +1474,12 @@ class OP4Eval(AutoEvaluator):
                     parts.append(t)
                 parts.append(tx)
             return Txt(parts)
+        if method == "join" and len(pos) == 1 and isinstance(pos[0], SeqV):
+            # the pieces of a sequence of unknown length: one generic piece stands for all of them
+            tx = as_txt(pos[0].elem)
+            if tx is None or t.p:
+                return Unknown("join of a generic sequence")
+            return tx
         if method == "join":
             return Unknown("join")
         if method in ("isidentifier", "isdigit", "isalpha"):
@@ -1310,6 +1514,8 @@ class OP4Eval(AutoEvaluator):
                 return F.const(len(x))
             if isinstance(x, BytesV):
                 return x.n
+            if isinstance(x, SeqV):
+                return x.count if is_rat(x.count) else Unknown("length of a generic sequence")
             t = as_txt(x)
             if t is not None:
                 k = t.fixed_len()
@@ -1392,11 +1598,46 @@ class OP4Eval(AutoEvaluator):
             return pos[0]
         if name in ("tuple", "list") and n == 1 and isinstance(pos[0], tuple):
             return pos[0]
+        if name in ("tuple", "list") and n == 0:
+            return ()
+        if name in ("bytes", "bytearray") and n == 1 and isinstance(pos[0], (PackV, BytesV)):
+            return pos[0]
+        if name in ("bytes", "bytearray") and n == 0:
+            return PackV(None, [], None)
         if name == "range" and 1 <= n <= 3 and all(is_rat(x) for x in pos):
             return F.fn("call:range", *pos)
-        if name == "getattr" and n >= 2 and is_rat(pos[1]) and strconst(pos[1]) is not None:
-            return self.attr_of(pos[0], strconst(pos[1]), node)
+        if name in ("getattr", "setattr") and n >= 2:
+            t = as_txt(pos[1])
+            nm = t.concrete() if t is not None else None
+            if nm is None or not nm.isidentifier():
+                return Unknown(f"{name} with a name that is not a constant")
+            bn = sym_name(pos[0]) if is_rat(pos[0]) else None
+            if name == "setattr":
+                if n != 3 or bn is None:
+                    return Unknown("setattr on a value")
+                d = bn + "." + nm
+                if d not in W.pinned:
+                    self.env[d] = pos[2]
+                return NONE
+            if bn in ("self", W.cls):
+                # the attribute as the expression `self.name` / `OP4.name` would give it (methods, class constants, state)
+                return self._ev(ast.Attribute(value=ast.Name(id=bn, ctx=ast.Load()), attr=nm, ctx=ast.Load()))
+            return self.attr_of(pos[0], nm, node)
         if name == "print":
+            if "file" in kw and is_rat(kw["file"]) and sym_name(kw["file"]) != "None":
+                # print(a, b, sep=.., end=.., file=f) writes str(a) + sep + str(b) + end to f
+                sep = strconst(kw["sep"]) if "sep" in kw and is_rat(kw["sep"]) else (" " if "sep" not in kw else None)
+                end = strconst(kw["end"]) if "end" in kw and is_rat(kw["end"]) else ("\n" if "end" not in kw else None)
+                parts = [as_txt(x, True) for x in pos]
+                if sep is None or end is None or any(p_ is None for p_ in parts) or set(kw) - {"file", "sep", "end", "flush"}:
+                    return Unknown("print to a file with arguments that are not texts")
+                out = []
+                for k, p_ in enumerate(parts):
+                    if k:
+                        out.append(Lit(sep))
+                    out.append(p_)
+                out.append(Lit(end))
+                W.emits.append(Emit(kw["file"], Txt(out), tuple(W.frames), node, self.qual))
             return NONE
         return self.opaque_call(name, pos, kw, node)
 
@@ -1483,13 +1724,30 @@ class OP4Eval(AutoEvaluator):
             elif c is False:
                 self.run(st.orelse)
             else:
-                self.fork_if(st)
+                self.fork_if(st, tv)
             return
         if t is ast.For:
             self.do_for(st)
             return
         if t is ast.While:
-            tv = self.ev(st.test)
+            # the test the loop goes on under: its own test and the leading `if ...: break` guards of its body (`while True: if c >= cols: break`)
+            guards = []
+            for s0 in st.body:
+                if isinstance(s0, ast.If) and not s0.orelse and len(s0.body) == 1 and isinstance(s0.body[0], ast.Break):
+                    guards.append(s0.test)
+                else:
+                    break
+
+            def loop_test():
+                parts = [self.ev(st.test)] + [negate(self.ev(g)) for g in guards]
+                if guards:
+                    live = [p for p in parts if not (is_rat(p) and (p.is_const() and p.const_value() != 0 or sym_name(p) == "True"))]
+                    if len(live) == 1:
+                        return live[0]
+                    if len(live) > 1 and all(is_rat(p) for p in live):
+                        return F.fn("bool:And", *live)
+                return parts[0]
+            tv = loop_test()
             rec = [st, tv, None, self.qual]
             W.whiles.append(rec)
             fr = Frame(st, tv, None, "while")
@@ -1500,7 +1758,7 @@ class OP4Eval(AutoEvaluator):
                 W.frames.pop()
             if not self.done and self.loopctl != "break":
                 n = len(W.compares)
-                rec[2] = self.ev(st.test)          # the test as the next iteration would see it
+                rec[2] = loop_test()               # the test as the next iteration would see it
                 del W.compares[n:]
             self.loopctl = None
             return
@@ -1572,7 +1830,24 @@ class OP4Eval(AutoEvaluator):
         W = self.W
         return (W.stream.i if W.stream is not None else None, W.lines_i)
 
-    def fork_if(self, st):
+    @staticmethod
+    def _phi(tv, va, vb):
+        """value of a name after `if T: name = va` / `else: name = vb` when one side is the test value itself: `x = T; if x: x = B` is
+        `T and B`, `if not x: x = B` is `T or B` (exact in Python: and / or return one of their operands)"""
+        if not (is_rat(tv) and is_rat(va) and is_rat(vb)):
+            return None
+        u = unfn(tv)
+        neg, core = (True, u[1][0]) if (u and u[0] == "not" and len(u[1]) == 1) else (False, tv)
+        try:
+            if vb.equals(core):
+                return F.fn("bool:Or", core, va) if neg else F.fn("bool:And", core, va)
+            if va.equals(core):
+                return F.fn("bool:And", core, vb) if neg else F.fn("bool:Or", core, vb)
+        except Unsupported:
+            return None
+        return None
+
+    def fork_if(self, st, tv=None):
         W = self.W
         why = f"assigned under the undecided test `{ast.unparse(st.test)[:60]}`"
         pre = self._snap()
@@ -1615,7 +1890,11 @@ class OP4Eval(AutoEvaluator):
             env = {}
             for k in set(a["env"]) | set(b["env"]):
                 va, vb = a["env"].get(k), b["env"].get(k)
-                env[k] = vb if same_value(va, vb) else Unknown(why)
+                if same_value(va, vb):
+                    env[k] = vb
+                else:
+                    phi = self._phi(tv, va, vb)
+                    env[k] = phi if phi is not None else Unknown(why)
             self.env = env
             W.forks.append((st, self.qual))
             return
@@ -1684,6 +1963,20 @@ class OP4Eval(AutoEvaluator):
                 self._merge_state(sub)
                 return
         itv = self.ev(it)
+        if isinstance(itv, tuple) and len(itv) <= 64 and not any(is_unknown(x) for x in itv):
+            # a literal table: one pass per row
+            for x in itv:
+                self._assign(st.target, x, st)
+                self.run(st.body)
+                if self.done or self.loopctl == "break":
+                    break
+                self.loopctl = None
+            else:
+                self.loopctl = None
+                if not self.done:
+                    self.run(st.orelse)
+            self.loopctl = None
+            return
         W.nframes += 1
         elems = self.fresh_elems(st.target, W.nframes)
         fr = Frame(st, itv, elems, "for")
@@ -1703,9 +1996,18 @@ class OP4Eval(AutoEvaluator):
             rows = next(iter(W.shape_of.values()))[0]
             W.bound(pair[0], 0, rows - 1)
             W.bound(pair[1], 1, rows)
+        val = elems
+        if u is not None and u[0] == "idx" and len(u[1]) == 2 and is_rat(elems):
+            # element k of base[lo:hi] is base[lo + k]
+            us = unfn(u[1][1])
+            if us is not None and us[0] == "slice" and len(us[1]) == 3 and sym_name(us[1][2]) == "None":
+                lo = F.const(0) if sym_name(us[1][0]) == "None" else us[1][0]
+                if sym_name(us[1][1]) != "None":
+                    W.bound(elems, 0, us[1][1] - lo - 1)
+                val = F.fn("idx", u[1][0], lo + elems)
         W.frames.append(fr)
         try:
-            self._assign(st.target, elems, st)
+            self._assign(st.target, val, st)
             self.run(st.body)
         finally:
             W.frames.pop()
@@ -1770,7 +2072,17 @@ class Line:
         self.txt, self.frames, self.node, self.qual = txt, frames, node, qual
         fl = [p for p in txt.p if isinstance(p, Fld)]
         self.is_data = bool(fl) and all(f.kind() == "float" for f in fl)
-        self.ints = [f for f in fl if f.kind() in ("int", "any")] if not self.is_data else []
+        # the integers of the line in order: integer fields and integers spelled out in the literal text
+        self.ints = []
+        if not self.is_data:
+            import re
+            for p in txt.p:
+                if isinstance(p, Fld):
+                    if p.kind() in ("int", "any"):
+                        self.ints.append(p)
+                else:
+                    for m in re.finditer(r"(?<![\w.+-])[+-]?\d+(?![\w.])", p.s):
+                        self.ints.append(Fld(F.const(int(m.group(0))), "d"))
 
     def __repr__(self):
         return f"Line[{len(self.frames)}]{'*' if self.is_data else ''}{self.txt!r}"
@@ -1879,7 +2191,7 @@ def init_state(ctx):
     """self.* attributes after OP4.__init__ (constant-folded by value: `_expdigits`, `_rows4bigmat`, `_rowsCutoff`)"""
     W = World(ctx)
     W.opaque |= OPAQUE
-    fn = W.table.get("self.__init__") or ctx.src.func(M.OP4, "OP4.__init__")
+    fn = W.table.get("self.__init__") or func_of(ctx, "OP4.__init__")
     ev = OP4Eval(fn, W, env={}, qual="OP4.__init__")
     ev.run(fn.body)
     return {k: v for k, v in ev.env.items() if k.startswith("self.")}, fn
